@@ -176,6 +176,36 @@ func resolveFuncValue(v ssa.Value, d int) *ssa.Function {
 			return f
 		}
 		return nil
+	case *ssa.Call:
+		// a function value built by an in-package constructor (eg.Go(newContextWorker(ctx, &x, n, f))): the literal every
+		// return of the constructor yields
+		cal := x.Call.StaticCallee()
+		if cal == nil || cal.Blocks == nil || cal.Signature.Results().Len() != 1 || curCtx == nil || !curCtx.inModule(cal) {
+			return nil
+		}
+		if _, isSig := cal.Signature.Results().At(0).Type().Underlying().(*types.Signature); !isSig {
+			return nil
+		}
+		var lit *ssa.Function
+		nRet := 0
+		for _, b := range cal.Blocks {
+			for _, in := range b.Instrs {
+				ret, ok := in.(*ssa.Return)
+				if !ok || len(ret.Results) != 1 {
+					continue
+				}
+				nRet++
+				if mc, ok := returnedValue(ret, 0).(*ssa.MakeClosure); ok {
+					if f, ok := mc.Fn.(*ssa.Function); ok && f.Parent() == cal {
+						lit = f
+					}
+				}
+			}
+		}
+		if nRet == 1 {
+			return lit
+		}
+		return nil
 	case *ssa.UnOp:
 		if x.Op != token.MUL {
 			return nil
